@@ -127,7 +127,13 @@ def squash(s):
 
 
 PREFIXES = [None, None, "SELECT a FROM t WHERE x > 2;", "CREATE TABLE pre (q MAP<STRING, ARRAY<INT>>, r int);", "SELECT a FROM t WHERE x < 2;",
-            "CREATE TABLE pre2 (q ARRAY<STRUCT<a:INT, b:STRING>>);"]
+            "CREATE TABLE pre2 (q ARRAY<STRUCT<a:INT, b:STRING>>);",
+            # earlier statements that switch a lexer / parser mode on outside a column list (DEFAULT, CHECK, LIKE, ALTER, SEQUENCE, INDEX, TYPE) -
+            # complete in themselves, or unsupported and skipped
+            "CREATE TABLE u (a int AUTO_INCREMENT, b int) ENGINE=InnoDB DEFAULT CHARSET=utf8;", "CREATE TABLE u (id int);\nALTER TABLE u ADD CONSTRAINT df DEFAULT 0 FOR id;",
+            "CREATE TABLE u (a int CHECK (a > 0), b int);", "ALTER TABLE orders DROP CHECK chk_amount;", "CREATE TABLE u LIKE s.other;",
+            "CREATE SEQUENCE sq START WITH 1 INCREMENT BY 1;", "CREATE TABLE u (a int, b int);\nCREATE INDEX i ON u (a DESC);", "CREATE TYPE ty AS ENUM ('a', 'b');",
+            "ALTER TABLE t ALTER COLUMN a DROP DEFAULT;", "ALTER DEFAULT PRIVILEGES IN SCHEMA s REVOKE ALL ON TABLES FROM joe;", "CREATE TABLE u (a int DEFAULT 5, b varchar(3) DEFAULT 'x');"]
 
 
 # what the column *before* the type under test looks like (lexer flags set by one column live until the statement ends)
